@@ -3,6 +3,7 @@ package coder
 import (
 	"encoding/binary"
 	"errors"
+	gomath "math"
 
 	"github.com/plgd-dev/go-coap/v3/message"
 	"github.com/plgd-dev/go-coap/v3/message/codes"
@@ -197,7 +198,13 @@ func (c *Coder) DecodeHeader(data []byte, h *MessageHeader) (int, error) {
 		opLen = MessageLength15Base + int(extLen)
 	}
 
-	h.MessageLength = hdrOff + 1 + uint32(tkl) + math.CastTo[uint32](opLen)
+	// the declared frame length must be representable in MessageLength, otherwise it would wrap
+	// around and a huge frame would pass for a small one
+	messageLength := uint64(hdrOff) + 1 + uint64(tkl) + math.CastTo[uint64](opLen)
+	if messageLength > gomath.MaxUint32 {
+		return -1, message.ErrInvalidEncoding
+	}
+	h.MessageLength = math.CastTo[uint32](messageLength)
 	if len(data) < 1 {
 		return -1, message.ErrShortRead
 	}
